@@ -1,7 +1,7 @@
 """C08 - level-synchronous schedulers (structural clauses)."""
 import re
 
-from gsa.cfg import Fn, S, SC, is_call, walk, lit
+from gsa.cfg import Fn, S, SC, is_call, walk, lit, SN
 from gsa import rules as R
 from .common import executor_instances, FE, wl_name, split_targs
 
@@ -378,7 +378,8 @@ def obim(ctx, fx):
             # loop over all active threads
             loops = [b for b in fn.blocks.values() if (b.get("term") or {}).get("cls") in ("ForStmt", "WhileStmt") and
                      "activeThreads" in (b["term"].get("text") or "")]
-            if len(loops) != 1 or not re.match(r"^i < (galois::)?runtime::activeThreads$", loops[0]["term"].get("text") or ""):
+            if len(loops) != 1 or not loops[0]["term"].get("cond") or not re.fullmatch(
+                    r"\(i < (galois::)?(runtime::)?activeThreads\)", SN(lit(loops[0]["term"]["cond"])[0])):     # either spelling
                 det.append("remote loop is not `i < activeThreads`")
             i0 = [e for _, e in fn.events(lambda e: e.get("k") == "decl" and e.get("n") == "i")]
             if not i0 or i0[0].get("ip") != "0":
